@@ -1,5 +1,6 @@
 import LLBuild.Drv.Common
 import LLBuild.Model.EngineDSL
+import LLBuild.Lemmas.Engine.Exec0
 
 namespace LLBuild.Drv.Engine
 open LLBuild LLBuild.Drv LLBuild.Engine LLBuild.Engine.DSL
@@ -144,6 +145,9 @@ def runEvents (P : Program) (s : St) (evs : List String) (i : Nat) : St × Optio
     match parseEvent (toks e) with
     | none => (s, some s!"parse-error {i} {e.trimAscii.toString}")
     | some ev =>
+      -- the in-order guards of Lemmas/Engine/Exec0.lean (recorded dependencies are scanned in order, up to the first
+      -- changed one; reason 3 names that one): not part of `step`, but what makes the executed set schedule-independent
+      if !evOkX s ev then (s, some s!"reject-order {i} {e.trimAscii.toString}") else
       match step P s ev with
       | none => (s, some s!"reject {i} {e.trimAscii.toString}")
       | some s' => runEvents P s' rest (i + 1)
